@@ -4,6 +4,7 @@ import (
 	"context"
 	"database/sql"
 	"database/sql/driver"
+	"errors"
 	"fmt"
 	"io"
 	"runtime"
@@ -37,6 +38,11 @@ type SQLHooks struct {
 // driver returns when SQLite runs out of memory inside a statement (the
 // statement fails, the transaction stays open).
 var ErrInjected error = sqlite3.Error{Code: sqlite3.ErrNomem}
+
+// ErrInjectedAtStep, returned by a Before hook for a query, makes the query
+// itself succeed and the first step fail: the caller gets a result set whose
+// first Next returns ErrInjected.
+var ErrInjectedAtStep = errors.New("simsql: fail the first step of this query")
 
 type connector struct {
 	dsn        string
@@ -235,6 +241,9 @@ func (c *conn) ExecContext(ctx context.Context, q string, args []driver.NamedVal
 }
 func (c *conn) QueryContext(ctx context.Context, q string, args []driver.NamedValue) (driver.Rows, error) {
 	ev, err := c.before("query", q)
+	if err == ErrInjectedAtStep {
+		return c.failingRows(ctx, ev, q, args)
+	}
 	if err != nil {
 		return nil, err
 	}
@@ -245,6 +254,22 @@ func (c *conn) QueryContext(ctx context.Context, q string, args []driver.NamedVa
 	}
 	c.after(ev, err)
 	return r, err
+}
+
+// failingRows answers a query whose first step is to fail: the column names
+// are real (the statement is prepared, never stepped), the first Next fails.
+func (c *conn) failingRows(ctx context.Context, ev *SQLEvent, q string, args []driver.NamedValue) (driver.Rows, error) {
+	out := &rows{err: ErrInjected}
+	if st, err := c.c.PrepareContext(ctx, q); err == nil {
+		if r, err := st.(*sqlite3.SQLiteStmt).QueryContext(ctx, args); err == nil {
+			out.cols = r.Columns()
+			r.Close()
+		}
+		st.Close()
+	}
+	c.track(ev, out)
+	c.after(ev, ErrInjected)
+	return out, nil
 }
 
 // track registers a result set handed to an API handler.
@@ -324,6 +349,9 @@ func (s *stmt) ExecContext(ctx context.Context, args []driver.NamedValue) (drive
 }
 func (s *stmt) QueryContext(ctx context.Context, args []driver.NamedValue) (driver.Rows, error) {
 	ev, err := s.c.before("query", s.q)
+	if err == ErrInjectedAtStep {
+		return s.c.failingRows(ctx, ev, s.q, args)
+	}
 	if err != nil {
 		return nil, err
 	}
@@ -351,6 +379,11 @@ type rows struct {
 	data [][]driver.Value
 	i    int
 	cur  *Cursors
+	// err is delivered by Next after the rows read so far: go-sqlite3 steps
+	// the statement inside Next, so that is where a real failure during
+	// iteration (I/O error, busy, out of memory) reaches the caller -- and only
+	// code that checks rows.Err() notices it.
+	err error
 }
 
 func materialise(r driver.Rows) (driver.Rows, error) {
@@ -363,7 +396,8 @@ func materialise(r driver.Rows) (driver.Rows, error) {
 			return out, nil
 		}
 		if err != nil {
-			return nil, err
+			out.err = err
+			return out, nil
 		}
 		for i, v := range dest {
 			if b, ok := v.([]byte); ok {
@@ -384,6 +418,9 @@ func (r *rows) Close() error {
 }
 func (r *rows) Next(dest []driver.Value) error {
 	if r.i >= len(r.data) {
+		if r.err != nil {
+			return r.err
+		}
 		return io.EOF
 	}
 	copy(dest, r.data[r.i])
